@@ -288,6 +288,11 @@ func ruleTabAssoc(c *Ctx, r *R) {
 				case *ast.FuncLit:
 					return false
 				case *ast.BranchStmt:
+					if x.Tok == token.BREAK && isLineBreakGuardBreak(f, x) {
+						// `if p.lineEnded() { break }` ahead of the consumption: the same test as a
+						// conjunct of the condition; PAR-LINEBREAK decides what the helper may answer
+						return true
+					}
 					if x.Tok == token.BREAK || x.Tok == token.GOTO {
 						r.fail("loop exit", c.Pos(x), "the precedence-climbing loop of doExpression has an additional exit ("+x.Tok.String()+"): an operand can end for a reason other than binding power, e.g. at a line break before `-`, `*`, `&`, `^` — `total := base +` newline `rate*n - discount` is cut into `base + rate*n` and a dead `-discount` statement, without any error")
 					}
@@ -387,9 +392,44 @@ func signFoldRule(c *Ctx, r *R, rows map[string]*symRow) {
 			// an enclosing condition that looks at the spelling being prefixed
 			target := nosp(c.Src(sel))
 			guarded := false
+			looksAtText := func(cond ast.Expr) bool {
+				if strings.Contains(nosp(c.Src(cond)), target) {
+					return true
+				}
+				// ... or hands the token to a new predicate helper that reads its text
+				found := false
+				ast.Inspect(cond, func(k ast.Node) bool {
+					call, ok := k.(*ast.CallExpr)
+					if !ok {
+						return true
+					}
+					o := c.Callee(call)
+					if o == nil || !c.isNewHelper(o) {
+						return true
+					}
+					h := c.DeclOf(o)
+					if h == nil || h.Body == nil {
+						return true
+					}
+					for _, a := range call.Args {
+						if nosp(c.Src(a)) == nosp(c.Src(sel.X)) && strings.Contains(c.FullSrc(h.Body), ".Text") {
+							found = true
+						}
+					}
+					return true
+				})
+				return found
+			}
 			for p := c.Parent(as); p != nil && p != ast.Node(fd); p = c.Parent(p) {
-				if ifs, ok := p.(*ast.IfStmt); ok && strings.Contains(nosp(c.Src(ifs.Cond)), target) {
+				if ifs, ok := p.(*ast.IfStmt); ok && looksAtText(ifs.Cond) {
 					guarded = true
+				}
+				if cc, ok := p.(*ast.CaseClause); ok {
+					for _, e := range cc.List {
+						if looksAtText(e) {
+							guarded = true
+						}
+					}
 				}
 			}
 			r.check(guarded, "sign fold "+fd.Name.Name, c.Pos(as), "the sign is folded into the text only after looking at the spelling", fd.Name.Name+" prefixes \"-\" to the literal's text whatever its spelling: `-0x10` and `- -5` become the unparsable \"-0x10\" / \"--5\" (valid programs are rejected) and `-017` is read as decimal -17 (Go: -15)")
